@@ -20,7 +20,7 @@ NA = {
 
 PENDING = {
     'C07': 'filestore',
-    'C16': 'history', 'C17': 'charset',
+    'C16': 'history',
 }
 
 CHECKS = {
@@ -52,6 +52,10 @@ CHECKS = {
                 technique='deterministic simulation of playback on a virtual clock: generated files x consumer delay schedules x clock faults (oversleep, coarse clock, forward/backward jumps); oracle = independent stable merge and exact rational tempo-map integral',
                 text='Each run builds a file (type 0/1, type 2 for the refusal clause; ticks_per_beat 1..32767; 1-4 tracks; set_tempo at any position incl. tempo 0, 1, 16777215 and at ties with other tracks; deltas up to 268435455), then (a) iterates it and reads length: messages must equal the independent stable merge, cumulative times the exact tempo-map integral (Fractions), length the last cumulative time, type 2 must refuse; (b) plays it with play(now=simulated clock) while time.sleep is the simulated clock, the consumer spending a planned virtual time on each message (none / constant / bursts longer than the gap / ending exactly at the next scheduled time / abandoning the generator) under clock faults. Checked at every yield: same messages as iteration (metas only on request), never before the scheduled time on the supplied clock, every sleep request positive and equal to scheduled time minus clock reading, and - with an exact clock - yield time == max(request time, start + scheduled time), i.e. no accumulated drift. tick2second/second2tick inversion is monitored on the triples that occur.',
                 note="Float results are compared to the exact rational model with relative tolerance 1e-9; under a coarse supplied clock 'never early' allows one clock quantum. play()'s default now=time.time binding is not exercised (the documented now= parameter is)."),
+    'C17': dict(engine='charset', category='fault_enumeration', design='3 / C17',
+                technique='deterministic storage simulation with complete per-case enumeration of the failure points of load and save (EOF at every byte, OSError at every read/write call incl. torn writes, semantic failures) followed by a process-wide probe; chained call histories',
+                text='For each sampled (content, charset out of 10, direction, seam file=/filename=) the fault-free path is checked - texts survive save+load with that charset and the payload bytes found by an independent SMF walker equal text.encode(charset) - and then EVERY failure point of the call is visited on simulated storage: truncation after each byte of the image, OSError at each read call, OSError with and without a torn partial write at each write call, and semantic failures (invalid data byte, undecodable text, bad key signature, bad header, missing track; float or negative time, real-time message, unencodable text, type 0 with two tracks). After every call, failed or not, a probe encodes and decodes discriminating meta texts elsewhere in the process and requires latin1 behaviour. Chained histories of 2-6 calls with mixed charsets and faults, probed after each call or only at the end, cover leaks that only show later. The failure-point sweep is complete per sampled case; cases are sampled.',
+                note='Texts are restricted to strings the Python codec itself round-trips. Which exception a failed call raises is recorded but not judged (the statement says succeeded or raised).'),
 }
 
 
